@@ -360,6 +360,16 @@ class Interp:
                 raise Unknown("formatting of %r fails" % (v,))
         return None
 
+    def in_range(self, ty, r, what):
+        """built-in integer arithmetic: outside the type's range the compiler's own (debug) build aborts; a release build
+        wraps - either way the value the source expresses is lost, and the table says so"""
+        if ty in INT_BITS and isinstance(r, int) and not isinstance(r, bool):
+            bits = INT_BITS[ty]
+            lo_, hi_ = (-(1 << (bits - 1)), (1 << (bits - 1)) - 1) if ty.startswith("i") else (0, (1 << bits) - 1)
+            if not lo_ <= r <= hi_:
+                raise Unknown("core::panicking: attempt to %s with overflow" % what)
+        return r
+
     def arg_ty(self, a):
         while isinstance(a, dict) and a.get("k") in ("Scope", "Use", "Coerce") and isinstance(a.get("e"), dict) and not a.get("ty"):
             a = a["e"]
@@ -550,7 +560,7 @@ class Interp:
                     bits = INT_BITS.get(ty_, 64)
                     return (~v) & ((1 << bits) - 1)
             if e["op"] == "Neg" and isinstance(v, (int, float)):
-                return -v
+                return self.in_range(e.get("ty"), -v, "negate")
             raise Unknown("unary %s on %r" % (e["op"], v))
         if k == "Binary":
             a = self.ev(e["l"], env, depth)
@@ -558,6 +568,8 @@ class Interp:
             r_ = self.binop(e["op"], a, b)
             if e.get("ty") == "f32" and isinstance(r_, float):
                 return F32(r_)                  # single precision arithmetic rounds after every operation
+            if e["op"] in ("Add", "Sub", "Mul") and isinstance(a, int) and isinstance(b, int):
+                return self.in_range(e.get("ty"), r_, {"Add": "add", "Sub": "subtract", "Mul": "multiply"}[e["op"]])
             return r_
         if k == "Tuple":
             return tuple(self.ev(x, env, depth) for x in e["elems"])
@@ -635,7 +647,11 @@ class Interp:
             cur = self.ev(e["l"], env, depth)
             rhs = self.ev(e["r"], env, depth)
             op = e["op"][:-6] if e["op"].endswith("Assign") else e["op"]
-            self.assign(e["l"], self.binop(op, cur, rhs), env, depth)
+            cur_ = cur.get() if isinstance(cur, Ref) else cur
+            r_ = self.binop(op, cur, rhs)
+            if op in ("Add", "Sub", "Mul") and isinstance(cur_, int) and isinstance(rhs, int) and not isinstance(cur_, bool):
+                r_ = self.in_range(self.arg_ty(e["l"]), r_, {"Add": "add", "Sub": "subtract", "Mul": "multiply"}[op])
+            self.assign(e["l"], r_, env, depth)
             return ()
         if k == "Return":
             raise ReturnEx(self.ev(e["e"], env, depth) if "e" in e else ())
